@@ -1,5 +1,5 @@
 (* C17 property theorems: statements + `exact lemma` only. *)
-From CJ Require Import Common.Base C17.Model C17.Sites C17.Proofs.
+From CJ Require Import Common.Base C17.Model C17.Proofs.
 
 (* whatever generalizeErr (either copy) returns, its text embeds no address — for every error shape *)
 Theorem C17_generalize_address_free :
@@ -14,27 +14,6 @@ Theorem C17_safe_site_no_address :
     has_addr (output default_level s ev) = false.
 Proof. exact safe_site_no_address. Qed.
 Print Assumptions C17_safe_site_no_address.
-
-(* the full statement over the table regenerated from the source on this run *)
-Definition C17_all_sites_safe_full_statement : Prop := forallb safe_site sites = true.
-
-(* proved part: every site except those recorded as open known findings *)
-Theorem C17_all_sites_safe_partial : forallb (fun s => s_known s || safe_site s) sites = true.
-Proof. exact all_sites_safe_but_known. Qed.
-Print Assumptions C17_all_sites_safe_partial.
-
-Theorem C17_no_site_leaks :
-  forall s ev, In s sites -> s_known s = false -> log_client_ip ev = false ->
-    has_addr (output default_level s ev) = false.
-Proof. exact no_site_leaks. Qed.
-Print Assumptions C17_no_site_leaks.
-
-(* the level order of pkg/station/log (regenerated): Info is ABOVE Error, so Infof prints at the default level *)
-Theorem C17_level_order :
-  level_table = [(1, level_rank Trace); (2, level_rank Debug); (3, level_rank Warn); (4, level_rank Error); (5, level_rank Info)]
-  /\ default_rank = level_rank default_level.
-Proof. exact level_table_agrees. Qed.
-Print Assumptions C17_level_order.
 
 Theorem C17_info_prints_by_default :
   prints default_level Info = true /\ prints default_level Error = true
